@@ -173,6 +173,10 @@ func parseHeaderCmd(args []string) int {
 		for _, p := range []int{open, dot, colon, closeAt} {
 			bad(line[:p]+line[p+1:], "separator removed", true)
 		}
+		// a sequence number that does not fit 32 bits is not a sequence number
+		for _, big := range []string{"4294967296", "4294967297", "42949672950", "18446744073709551615", "18446744073709551616", "99999999999999999999999"} {
+			bad(fmt.Sprintf("type=%s msg=audit(%d.%03d:%s): %s", name, sec, ms, big, body), "sequence does not fit 32 bits", true)
+		}
 		for i := open + 1; i < closeAt; i++ {
 			if line[i] >= '0' && line[i] <= '9' {
 				b := []byte(line)
